@@ -4,7 +4,7 @@ import re, sys, json, os, collections
 res = collections.OrderedDict()
 for path in sys.argv[1:]:
     for line in open(path):
-        m = re.match(r'(\S+) on (C\d+): exit=(\d+) (\d+) violation line\(s\): (.*)', line.strip())
+        m = re.match(r'(\S+) on (C\d+): exit=(\d+) (\d+) violation line\(s\):\s*(.*)', line.strip())
         if m:
             sid, prop, rc, nv, rest = m.groups()
             verdict = "MISSED" if nv == "0" else ("no-failing-input" if "no-failing-input-found" in rest else "failing-input")
